@@ -7,6 +7,7 @@ open Codec
 let handlers : (t -> (int * string list) option) list = [
   Cmd_filter.handle;
   Cmd_cache.handle;
+  Cmd_lister.handle;
 ]
 
 let () =
